@@ -3,28 +3,23 @@ C03.4, concrete side: in the family of ranges generated from a well-formed subne
 range that contains an (aligned) address and is no longer than the client prefix carries exactly the
 answer of `Spec.lpm`.
 -/
-import DnsVerif.Proofs.LpmConc
+import DnsVerif.Proofs.LpmFamWF
 import DnsVerif.Proofs.LpmCdb
 
 namespace DnsVerif.Lpm
 open DnsVerif DnsVerif.Rearr DnsVerif.Spec
+
+set_option linter.unusedSimpArgs false
 
 /- helper lemmas live in `InnerAux` so that they cannot clash with the other C03.4 files -/
 namespace InnerAux
 
 /-! ### literals and small arithmetic -/
 
-theorem firstIPv4_val : firstIPv4 = 281470681743360 := rfl
-theorem afterIPv4_val : afterIPv4 = 281474976710656 := rfl
-theorem TOP_val : TOP = 340282366920938463463374607431768211456 := rfl
-
-theorem isV4Addr_iff (a : Nat) : isV4Addr a = true ↔ firstIPv4 ≤ a ∧ a < afterIPv4 := by
+theorem isV4Addr_iff (a : Nat) : isV4Addr a = true ↔ 281470681743360 ≤ a ∧ a < 281474976710656 := by
   unfold isV4Addr
-  rw [decide_eq_true_iff, firstIPv4_val, afterIPv4_val]
+  rw [decide_eq_true_iff]
   omega
-
-theorem isV4Addr_false_iff (a : Nat) : isV4Addr a = false ↔ ¬ (firstIPv4 ≤ a ∧ a < afterIPv4) := by
-  rw [← isV4Addr_iff]; cases isV4Addr a <;> simp
 
 theorem blockStart_aligned {n o : Nat} (h : n % 2 ^ (128 - o) = 0) : blockStart n o = n := by
   unfold blockStart
@@ -51,183 +46,22 @@ theorem mod_of_longer {a req o : Nat} (ho : o ≤ 128) (hlt : req < o)
   exact Nat.mod_eq_zero_of_dvd
     (Nat.dvd_trans (Nat.dvd_mul_right _ _) (Nat.dvd_of_mod_eq_zero hal))
 
-/-! ### the ranges of `famOf S`, classified -/
-
-/-- `R` is the block range of subnet `s` -/
-def IsBlk (s : SubnetDecl) (R : Rng) : Prop :=
-  R.lo = s.net ∧ R.hi = s.net + 2 ^ (128 - s.ones) ∧ R.len = s.ones ∧ R.loc = some s.loc
-
-inductive Cls (S : List SubnetDecl) (R : Rng) : Prop
-  | blk (s : SubnetDecl) (hs : s ∈ S) (hb : IsBlk s R)
-  | half (s : SubnetDecl) (hs : s ∈ S) (hn : s.net = 0) (ho : s.ones = 0) (hlo : R.lo = afterIPv4)
-      (hhi : R.hi = TOP) (hlen : R.len = 0) (hloc : R.loc = some s.loc)
-  | r4 (he : R = R4) (hno : ∀ s ∈ S, ¬ (s.net = firstIPv4 ∧ s.ones = 96))
-  | r6a (he : R = R6a) (hno : ∀ s ∈ S, ¬ (s.net = 0 ∧ s.ones = 0))
-  | r6b (he : R = R6b) (hno : ∀ s ∈ S, ¬ (s.net = 0 ∧ s.ones = 0))
-
-theorem hasV4_false {S : List SubnetDecl} :
-    hasV4 S = false ↔ ∀ s ∈ S, ¬ (s.net = firstIPv4 ∧ s.ones = 96) := by
-  simp [hasV4]
-
-theorem hasV6_false {S : List SubnetDecl} : hasV6 S = false ↔ ∀ s ∈ S, ¬ (s.net = 0 ∧ s.ones = 0) := by
-  simp [hasV6]
-
-theorem mem_rngOf {S : List SubnetDecl} (h : SubsWF S) {s : SubnetDecl} (hs : s ∈ S) {R : Rng}
-    (hR : R ∈ rngOf s) : Cls S R := by
-  unfold rngOf at hR
-  split at hR
-  next h0 =>
-    obtain ⟨h0, ho⟩ := h0
-    rcases List.mem_cons.1 hR with rfl | hR
-    · exact .blk s hs ⟨h0.symm, by simp [h0, ho, TOP], rfl, rfl⟩
-    · rcases List.mem_cons.1 hR with rfl | hR
-      · exact .half s hs h0 ho rfl rfl ho rfl
-      · cases hR
-  next h0 =>
-    split at hR
-    next h4 =>
-      obtain ⟨h4, ho⟩ := h4
-      rcases List.mem_cons.1 hR with rfl | hR
-      · exact .blk s hs ⟨h4.symm, by simp [h4, ho, firstIPv4_val, afterIPv4_val], rfl, rfl⟩
-      · cases hR
-    next h4 =>
-      rcases List.mem_cons.1 hR with rfl | hR
-      · rw [blockStart_aligned (h.aligned s hs)]
-        exact .blk s hs ⟨rfl, rfl, rfl, rfl⟩
-      · cases hR
-
-/-- classification of the members of `famOf S` -/
-theorem mem_famOf' {S : List SubnetDecl} (h : SubsWF S) {R : Rng} (hR : R ∈ famOf S) : Cls S R := by
-  unfold famOf at hR
-  rcases List.mem_append.1 hR with hR | hR
-  · rcases List.mem_append.1 hR with hR | hR
-    · obtain ⟨s, hs, hR⟩ := List.mem_flatMap.1 hR
-      exact mem_rngOf h hs hR
-    · cases hv : hasV4 S with
-      | true => simp [hv] at hR
-      | false =>
-        simp only [hv, Bool.false_eq_true, if_false, List.mem_singleton] at hR
-        exact .r4 hR (hasV4_false.1 hv)
-  · cases hv : hasV6 S with
-    | true => simp [hv] at hR
-    | false =>
-      simp only [hv, Bool.false_eq_true, if_false, List.mem_cons, List.not_mem_nil, or_false] at hR
-      rcases hR with hR | hR
-      · exact .r6a hR (hasV6_false.1 hv)
-      · exact .r6b hR (hasV6_false.1 hv)
-
-/-- every subnet has its block range in the family -/
-theorem blk_mem {S : List SubnetDecl} (h : SubsWF S) {s : SubnetDecl} (hs : s ∈ S) :
-    ∃ R ∈ famOf S, IsBlk s R := by
-  have hsub : ∀ R, R ∈ rngOf s → R ∈ famOf S := fun R hR =>
-    List.mem_append_left _ (List.mem_append_left _ (List.mem_flatMap.2 ⟨s, hs, hR⟩))
-  by_cases h0 : s.net = 0 ∧ s.ones = 0
-  · refine ⟨⟨0, TOP, s.ones, some s.loc, none⟩, hsub _ ?_, ?_⟩
-    · unfold rngOf; rw [if_pos h0]; exact List.mem_cons_self
-    · exact ⟨h0.1.symm, by simp [h0.1, h0.2, TOP], rfl, rfl⟩
-  · by_cases h4 : s.net = firstIPv4 ∧ s.ones = 96
-    · refine ⟨⟨firstIPv4, afterIPv4, s.ones, some s.loc, some s.loc⟩, hsub _ ?_, ?_⟩
-      · unfold rngOf; rw [if_neg h0, if_pos h4]; exact List.mem_singleton.2 rfl
-      · exact ⟨h4.1.symm, by simp [h4.1, h4.2, firstIPv4_val, afterIPv4_val], rfl, rfl⟩
-    · refine ⟨⟨s.net, s.net + 2 ^ (128 - s.ones), s.ones, some s.loc, none⟩, hsub _ ?_,
-        ⟨rfl, rfl, rfl, rfl⟩⟩
-      unfold rngOf; rw [if_neg h0, if_neg h4, blockStart_aligned (h.aligned s hs)]
-      exact List.mem_singleton.2 rfl
-
-theorem R4_mem {S : List SubnetDecl} (hno : ∀ s ∈ S, ¬ (s.net = firstIPv4 ∧ s.ones = 96)) :
-    R4 ∈ famOf S := by
-  unfold famOf
-  rw [hasV4_false.2 hno]
-  exact List.mem_append_left _ (List.mem_append_right _ (List.mem_singleton.2 rfl))
-
-end InnerAux
-open InnerAux
-
-/-! ### deliverable 1 -/
-
-set_option linter.unusedVariables false in
-theorem align_hA {S : List SubnetDecl} (h : SubsWF S) {a req : Nat} (ha : a < 2 ^ 128)
-    (hreq : req < 256) (hal : a % 2 ^ (128 - req) = 0) :
-    ∀ R ∈ famOf S, R.lo < a → a < R.hi → R.len ≤ req := by
-  intro R hR hlo hhi
-  cases mem_famOf' h hR with
-  | blk s hs hb =>
-    obtain ⟨h1, h2, h3, _⟩ := hb
-    rw [h3]
-    refine Nat.le_of_not_lt fun hlt => ?_
-    have hmod := mod_of_longer (h.ones_le s hs) hlt hal
-    have := mult_between (h.aligned s hs) hmod (by omega) (by omega)
-    omega
-  | half s hs hn ho hlo' hhi' hlen hloc => omega
-  | r4 he hno => subst he; exact Nat.zero_le _
-  | r6a he hno => subst he; exact Nat.zero_le _
-  | r6b he hno => subst he; exact Nat.zero_le _
-
-namespace InnerAux
-
-/-! ### families -/
-
-theorem pairwise_mem_eq {α : Type} {P : α → α → Prop} :
-    ∀ {l : List α}, l.Pairwise (fun x y => ¬ P x y) → (∀ x y, P x y → P y x) →
-      ∀ x ∈ l, ∀ y ∈ l, P x y → x = y := by
-  intro l
-  induction l with
-  | nil => intro _ _ x hx; cases hx
-  | cons c l ih =>
-    intro hp hsym x hx y hy hxy
-    rw [List.pairwise_cons] at hp
-    rcases List.mem_cons.1 hx with hx' | hx' <;> rcases List.mem_cons.1 hy with hy' | hy'
-    · rw [hx', hy']
-    · rw [hx'] at hxy; exact absurd hxy (hp.1 y hy')
-    · rw [hy'] at hxy; exact absurd (hsym _ _ hxy) (hp.1 x hx')
-    · exact ih hp.2 hsym x hx' y hy' hxy
-
-theorem w1_eq {S : List SubnetDecl} (h : SubsWF S) {s t : SubnetDecl} (hs : s ∈ S) (ht : t ∈ S)
-    (hn : s.net = t.net) (ho : s.ones = t.ones) : s = t :=
-  pairwise_mem_eq (P := fun s t => s.net = t.net ∧ s.ones = t.ones) h.w1
-    (fun _ _ hxy => ⟨hxy.1.symm, hxy.2.symm⟩) s hs t ht ⟨hn, ho⟩
-
 theorem contains_iff' {S : List SubnetDecl} (h : SubsWF S) {s : SubnetDecl} (hs : s ∈ S) (a : Nat) :
     s.contains a = true ↔ s.net ≤ a ∧ a < s.net + 2 ^ (128 - s.ones) := by
   rw [contains_iff, blockStart_aligned (h.aligned s hs)]; rfl
 
-/-- a subnet that contains `a` is of `a`'s family, except the declared `::/0` for an IPv4 `a` -/
-theorem fam_of_contains {S : List SubnetDecl} (h : SubsWF S) {s : SubnetDecl} (hs : s ∈ S) {a : Nat}
-    (hc : s.contains a = true) :
-    s.isV4 = isV4Addr a ∨ (s.net = 0 ∧ s.ones = 0 ∧ isV4Addr a = true) := by
-  have hmk : maskN s.net s.ones = s.net := maskN_aligned (h.aligned s hs)
-  by_cases ho : 96 ≤ s.ones
-  · left
-    have hdiv : a / 2 ^ (128 - s.ones) = s.net / 2 ^ (128 - s.ones) := by
-      unfold SubnetDecl.contains at hc
-      exact of_decide_eq_true hc
-    have hma := (div_eq_iff_maskN_eq a s.net s.ones).1 hdiv
-    rw [hmk] at hma
-    have h4 := isV4Addr_maskN (a := a) ho
-    rw [hma] at h4
-    unfold SubnetDecl.isV4
-    rw [h4]; simp [ho]
-  · have hn4 : isV4Addr s.net = false := not_isV4Addr_of_masked (by omega) hmk
-    cases hv : isV4Addr a with
-    | false => left; unfold SubnetDecl.isV4; rw [hn4]; rfl
-    | true =>
-      right
-      obtain ⟨h1, h2⟩ := (contains_iff' h hs a).1 hc
-      obtain ⟨h3, h4⟩ := (isV4Addr_iff a).1 hv
-      have hlam := cidr_laminar s.net s.ones firstIPv4 96 (by omega)
-      rw [blockStart_aligned (h.aligned s hs)] at hlam
-      have e1 : blockStart firstIPv4 96 = firstIPv4 := rfl
-      have e2 : blockSize 96 = 4294967296 := rfl
-      have e3 : blockSize s.ones = 2 ^ (128 - s.ones) := rfl
-      rw [e1, e2, e3] at hlam
-      have hw3 := h.w3 s hs
-      by_cases h0 : s.net = 0 ∧ s.ones = 0
-      · exact ⟨h0.1, h0.2, rfl⟩
-      · exfalso
-        apply hw3 h0 (fun hf => by omega)
-        rw [firstIPv4_val, afterIPv4_val] at *
-        generalize 2 ^ (128 - s.ones) = sz at *
-        omega
+/-- a subnet is of the IPv4 family iff its block lies inside `::ffff:0:0/96` -/
+theorem isV4_iff {S : List SubnetDecl} (h : SubsWF S) {s : SubnetDecl} (hs : s ∈ S) :
+    s.isV4 = true ↔ 281470681743360 ≤ s.net ∧ s.net + 2 ^ (128 - s.ones) ≤ 281474976710656 := by
+  have f := subFacts h hs
+  have := f.sz_pos; have := f.ge96; have := f.lam4
+  unfold SubnetDecl.isV4
+  rw [Bool.and_eq_true, isV4Addr_iff, decide_eq_true_iff]
+  constructor
+  · rintro ⟨⟨h1, h2⟩, h3⟩
+    omega
+  · rintro ⟨h1, h2⟩
+    omega
 
 /-- an aligned IPv4 address has a client prefix of at least 96 bits -/
 theorem req_ge_of_v4 {a req : Nat} (hal : a % 2 ^ (128 - req) = 0) (hv : isV4Addr a = true) :
@@ -236,41 +70,57 @@ theorem req_ge_of_v4 {a req : Nat} (hal : a % 2 ^ (128 - req) = 0) (hv : isV4Add
   rw [not_isV4Addr_of_masked hlt (maskN_aligned hal)] at hv
   cases hv
 
-/-- a block that reaches `TOP` from at or below `afterIPv4` is the whole space -/
-theorem top_sub {S : List SubnetDecl} (h : SubsWF S) {w : SubnetDecl} (hw : w ∈ S)
-    (h1 : w.net ≤ afterIPv4) (h2 : TOP ≤ w.net + 2 ^ (128 - w.ones)) : w.net = 0 ∧ w.ones = 0 := by
-  have hal := h.aligned w hw
-  have hlt := h.net_lt w hw
-  have ho : w.ones = 0 := by
-    refine Nat.eq_zero_of_not_pos fun hpos => ?_
-    have : 2 ^ (128 - w.ones) ≤ 2 ^ 127 := Nat.pow_le_pow_right (by omega) (by omega)
-    rw [TOP_val] at h2; rw [afterIPv4_val] at h1
-    omega
-  rw [ho] at hal
-  exact ⟨by omega, ho⟩
-
-/-- a subnet whose block contains `a` and that is short enough qualifies, except the declared `::/0`
-for an IPv4 `a` -/
-theorem blk_qual {S : List SubnetDecl} (h : SubsWF S) {m : Bytes} (hm : ∀ s ∈ S, s.mapID = m)
-    {s : SubnetDecl} (hs : s ∈ S) {a req : Nat} (h1 : s.net ≤ a)
-    (h2 : a < s.net + 2 ^ (128 - s.ones)) (h3 : s.ones ≤ req) :
-    Qual m (isV4Addr a) a req s ∨ (s.net = 0 ∧ s.ones = 0 ∧ isV4Addr a = true) := by
-  have hc := (contains_iff' h hs a).2 ⟨h1, h2⟩
-  rcases fam_of_contains h hs hc with hf | hf
-  · exact .inl ⟨hm s hs, hf, h3, hc⟩
-  · exact .inr hf
+/-- the IPv4 root of the family: the declared `0.0.0.0/0` or the implicit null range -/
+theorem v4_root {S : List SubnetDecl} (h : SubsWF S) :
+    ∃ V ∈ famF S, V.lo = 281470681743360 ∧ V.hi = 281474976710656 ∧ V.len ≤ 96 := by
+  by_cases hv : ∀ s ∈ S, ¬ (s.net = firstIPv4 ∧ s.ones = 96)
+  · exact ⟨R4, (mem_famF h).2 (Or.inr (Or.inr (Or.inl ⟨rfl, hv⟩))), rfl, rfl, Nat.zero_le _⟩
+  · have : ∃ s ∈ S, s.net = firstIPv4 ∧ s.ones = 96 := by
+      refine Classical.byContradiction fun hn => hv fun s hs e => hn ⟨s, hs, e⟩
+    obtain ⟨s, hs, h1, h2⟩ := this
+    refine ⟨blk s, (mem_famF h).2 (Or.inl ⟨s, hs, rfl⟩), ?_, ?_, ?_⟩
+    · show s.net = _; rw [h1]; rfl
+    · show s.net + 2 ^ (128 - s.ones) = _; rw [h1, h2]; rfl
+    · show s.ones ≤ 96; omega
 
 end InnerAux
+open InnerAux
+
+/-! ### deliverable 1 -/
+
+theorem align_hA {S : List SubnetDecl} (h : SubsWF S) {a req : Nat}
+    (hal : a % 2 ^ (128 - req) = 0) :
+    ∀ R ∈ famF S, R.lo < a → a < R.hi → R.len ≤ req := by
+  intro R hR hlo hhi
+  rcases (mem_famF h).1 hR with ⟨s, hs, rfl⟩ | ⟨⟨s, hs, h0, rfl⟩, ns⟩ | ⟨rfl, n4⟩ | ⟨rfl, n6⟩ |
+      ⟨rfl, n6, ns⟩
+  · show s.ones ≤ req
+    refine Nat.le_of_not_lt fun hlt => ?_
+    have hmod := mod_of_longer (h.ones_le s hs) hlt hal
+    have h1 : s.net < a := hlo
+    have h2 : a < s.net + 2 ^ (128 - s.ones) := hhi
+    have := mult_between (h.aligned s hs) hmod (by omega) (by omega)
+    omega
+  · show s.ones ≤ req; omega
+  · exact Nat.zero_le _
+  · exact Nat.zero_le _
+  · exact Nat.zero_le _
 
 /-! ### deliverable 2 -/
 
-set_option linter.unusedVariables false in
 theorem inner_eq_lpm {S : List SubnetDecl} (h : SubsWF S) {m : Bytes} (hm : ∀ s ∈ S, s.mapID = m)
-    {a req : Nat} (ha : a < 2 ^ 128) (hreq : req < 256) (hal : a % 2 ^ (128 - req) = 0) {H : Rng}
-    (hH : H ∈ famOf S) (hlo : H.lo ≤ a) (hhi : a < H.hi) (hlen : H.len ≤ req)
-    (hin : ∀ X ∈ famOf S, X.lo ≤ a → a < X.hi → X.len ≤ req → X.lo ≤ H.lo ∧ H.hi ≤ X.hi) :
+    {a req : Nat} (hal : a % 2 ^ (128 - req) = 0) {H : Rng}
+    (hH : H ∈ famF S) (hlo : H.lo ≤ a) (hhi : a < H.hi) (hlen : H.len ≤ req)
+    (hin : ∀ X ∈ famF S, X.lo ≤ a → a < X.hi → X.len ≤ req → X.lo ≤ H.lo ∧ H.hi ≤ X.hi) :
     (H.loc, H.len) = lpmRes S m a req := by
-  have hcls := mem_famOf' h hH
+  -- the IPv4 root, for IPv4 addresses
+  have hroot : isV4Addr a = true → 281470681743360 ≤ H.lo ∧ H.hi ≤ 281474976710656 := by
+    intro hv
+    obtain ⟨v1, v2⟩ := (isV4Addr_iff a).1 hv
+    obtain ⟨V, hV, e1, e2, e3⟩ := v4_root h
+    have hreq := req_ge_of_v4 hal hv
+    have := hin V hV (by omega) (by omega) (by omega)
+    omega
   unfold lpmRes
   cases hl : lpm S m (isV4Addr a) a req with
   | some w =>
@@ -278,95 +128,85 @@ theorem inner_eq_lpm {S : List SubnetDecl} (h : SubsWF S) {m : Bytes} (hm : ∀ 
     obtain ⟨hwS, hwq, hwmax⟩ := lpm_some hl
     obtain ⟨_, hwf, hwo, hwc⟩ := hwq
     obtain ⟨hw1, hw2⟩ := (contains_iff' h hwS a).1 hwc
-    obtain ⟨B, hB, hB1, hB2, hB3, hB4⟩ := blk_mem h hwS
-    obtain ⟨hs1, hs2⟩ := hin B hB (by omega) (by omega) (by omega)
-    rw [hB1] at hs1; rw [hB2] at hs2
-    cases hcls with
-    | blk s hs hb =>
-      obtain ⟨b1, b2, b3, b4⟩ := hb
-      have hsw : s = w := by
-        rcases blk_qual h hm hs (a := a) (req := req) (by omega) (by omega) (by omega) with
-          hq | ⟨e1, e2, e3⟩
-        · have hle := hwmax s hs hq
-          have hpow : 2 ^ (128 - s.ones) ≤ 2 ^ (128 - w.ones) := by omega
-          have hexp : 128 - s.ones ≤ 128 - w.ones :=
-            (Nat.pow_le_pow_iff_right (by omega : 1 < 2)).1 hpow
-          have ho : s.ones = w.ones := by
-            have := h.ones_le s hs; have := h.ones_le w hwS; omega
-          have hn : s.net = w.net := by rw [ho] at b2; omega
-          exact w1_eq h hs hwS hn ho
-        · -- `w` starts at `::`, so it is not of the IPv4 family, but `a` is
-          exfalso
-          have hw0 : w.net = 0 := by omega
-          have : w.isV4 = false := by simp [SubnetDecl.isV4, hw0, isV4Addr]
-          rw [this, e3] at hwf; cases hwf
-      subst hsw; rw [b3, b4]
-    | half s hs hn0 ho hlo' hhi' hlen' hloc =>
-      obtain ⟨e1, e2⟩ := top_sub h hwS (by omega) (by omega)
-      have hsw := w1_eq h hs hwS (by omega) (by omega)
-      subst hsw; rw [hloc, hlen', ho]
-    | r4 he hno =>
-      exfalso; subst he
+    have hB := hin (blk w) ((mem_famF h).2 (Or.inl ⟨w, hwS, rfl⟩)) hw1 hw2 hwo
+    simp only [blk] at hB
+    have fw := subFacts h hwS
+    have := fw.o_le; have := fw.sz_pos; have := fw.hi_le; have := fw.o0; have := fw.o_pos
+    have := fw.sz96
+    rcases (mem_famF h).1 hH with ⟨s, hs, rfl⟩ | ⟨⟨s, hs, h0, rfl⟩, ns⟩ | ⟨rfl, n4⟩ | ⟨rfl, n6⟩ |
+        ⟨rfl, n6, ns⟩
+    · -- a block: its subnet qualifies, hence it is `w`
+      simp only [blk] at hlo hhi hlen hB ⊢
+      have hsc := (contains_iff' h hs a).2 ⟨hlo, hhi⟩
+      have hsv : s.isV4 = isV4Addr a := by
+        cases hv : isV4Addr a with
+        | true =>
+          rw [hv] at hwf
+          have := (isV4_iff h hwS).1 hwf
+          exact (isV4_iff h hs).2 (by omega)
+        | false =>
+          cases hs4 : s.isV4 with
+          | false => rfl
+          | true =>
+            have := (isV4_iff h hs).1 hs4
+            have : isV4Addr a = true := (isV4Addr_iff a).2 (by omega)
+            rw [hv] at this; cases this
+      have hle := hwmax s hs ⟨hm s hs, hsv, hlen, hsc⟩
+      have p := pairFacts h hs hwS
+      have := p.le1; have := p.eqo
+      have fs := subFacts h hs
+      have := fs.sz_pos
+      have ho : s.ones = w.ones := by omega
+      have hn : s.net = w.net := by have := p.eqo ho; omega
+      have := w1_inj h hs hwS hn ho
+      subst this; rfl
+    · -- the upper half of `::/0`
+      simp only [half, TOP_eq, afterIPv4_eq] at hB ⊢
+      have := w1_inj h hs hwS (by omega) (by omega)
+      subst this; rfl
+    · exfalso
+      simp only [R4, firstIPv4_eq, afterIPv4_eq] at hlo hhi hB
       have hv : isV4Addr a = true := (isV4Addr_iff a).2 ⟨hlo, hhi⟩
-      by_cases h0 : w.net = 0 ∧ w.ones = 0
-      · have : w.isV4 = false := by simp [SubnetDecl.isV4, h0.2]
-        rw [this, hv] at hwf; cases hwf
-      · exact h.w3 w hwS h0 (hno w hwS) ⟨hs1, hs2⟩
-    | r6a he hno =>
-      subst he
-      exact absurd (top_sub h hwS (by rw [Nat.le_zero.1 hs1]; exact Nat.zero_le _) hs2) (hno w hwS)
-    | r6b he hno => subst he; exact absurd (top_sub h hwS hs1 hs2) (hno w hwS)
+      rw [hv] at hwf
+      have := (isV4_iff h hwS).1 hwf
+      have := n4 w hwS
+      rw [firstIPv4_eq] at this
+      omega
+    · exfalso
+      simp only [R6a, TOP_eq] at hB
+      exact n6 w hwS (by omega)
+    · exfalso
+      simp only [R6b, TOP_eq, afterIPv4_eq] at hB
+      exact n6 w hwS (by omega)
   | none =>
     show (H.loc, H.len) = (none, 0)
     have hn := lpm_none.1 hl
-    cases hv : isV4Addr a with
-    | true =>
-      rw [hv] at hn
-      obtain ⟨v1, v2⟩ := (isV4Addr_iff a).1 hv
-      have hreq96 := req_ge_of_v4 hal hv
-      have hno4 : ∀ s ∈ S, ¬ (s.net = firstIPv4 ∧ s.ones = 96) := by
-        intro s hs e'
-        obtain ⟨e, ho⟩ := e'
-        have e32 : (2 : Nat) ^ (128 - 96) = 4294967296 := rfl
-        refine hn s hs ⟨hm s hs, ?_, by omega, (contains_iff' h hs a).2 ⟨by omega, ?_⟩⟩
-        · unfold SubnetDecl.isV4; rw [e, ho]; rfl
-        · rw [e, ho, e32, firstIPv4_val]; rw [afterIPv4_val] at v2; omega
-      obtain ⟨hr1, hr2⟩ := hin R4 (R4_mem hno4) v1 v2 (Nat.zero_le _)
-      have hr1' : firstIPv4 ≤ H.lo := hr1
-      have hr2' : H.hi ≤ afterIPv4 := hr2
-      rw [firstIPv4_val] at hr1'; rw [afterIPv4_val] at hr2'
-      cases hcls with
-      | blk s hs hb =>
-        exfalso
-        obtain ⟨b1, b2, b3, b4⟩ := hb
-        rcases blk_qual h hm hs (a := a) (req := req) (by omega) (by omega) (by omega) with
-          hq | ⟨e1, _, _⟩
-        · rw [hv] at hq; exact hn s hs hq
-        · omega
-      | half s hs hn0 ho hlo' hhi' hlen' hloc => exfalso; rw [hhi', TOP_val] at hr2'; omega
-      | r4 he _ => subst he; rfl
-      | r6a he _ => subst he; exfalso; have : TOP ≤ _ := hr2'; rw [TOP_val] at this; omega
-      | r6b he _ => subst he; exfalso; have : TOP ≤ _ := hr2'; rw [TOP_val] at this; omega
-    | false =>
-      rw [hv] at hn
-      cases hcls with
-      | blk s hs hb =>
-        exfalso
-        obtain ⟨b1, b2, b3, b4⟩ := hb
-        rcases blk_qual h hm hs (a := a) (req := req) (by omega) (by omega) (by omega) with
-          hq | ⟨_, _, e3⟩
-        · rw [hv] at hq; exact hn s hs hq
-        · rw [hv] at e3; cases e3
-      | half s hs hn0 ho hlo' hhi' hlen' hloc =>
-        exfalso
-        refine hn s hs ⟨hm s hs, ?_, by omega, (contains_iff' h hs a).2 ⟨by omega, ?_⟩⟩
-        · unfold SubnetDecl.isV4; rw [hn0, ho]; rfl
-        · rw [hn0, ho]; omega
-      | r4 he _ =>
-        subst he
-        have := (isV4Addr_iff a).2 ⟨hlo, hhi⟩
-        rw [hv] at this; cases this
-      | r6a he _ => subst he; rfl
-      | r6b he _ => subst he; rfl
+    rcases (mem_famF h).1 hH with ⟨s, hs, rfl⟩ | ⟨⟨s, hs, h0, rfl⟩, ns⟩ | ⟨rfl, n4⟩ | ⟨rfl, n6⟩ |
+        ⟨rfl, n6, ns⟩
+    · exfalso
+      simp only [blk] at hlo hhi hlen hroot
+      have hsc := (contains_iff' h hs a).2 ⟨hlo, hhi⟩
+      refine hn s hs ⟨hm s hs, ?_, hlen, hsc⟩
+      cases hv : isV4Addr a with
+      | true => exact (isV4_iff h hs).2 (hroot hv)
+      | false =>
+        cases hs4 : s.isV4 with
+        | false => rfl
+        | true =>
+          have := (isV4_iff h hs).1 hs4
+          have : isV4Addr a = true := (isV4Addr_iff a).2 (by omega)
+          rw [hv] at this; cases this
+    · exfalso
+      simp only [half, TOP_eq, afterIPv4_eq] at hlo hhi hlen
+      have hv : isV4Addr a = false := by
+        cases hv : isV4Addr a with
+        | false => rfl
+        | true => have := (isV4Addr_iff a).1 hv; omega
+      refine hn s hs ⟨hm s hs, ?_, by omega, (contains_iff' h hs a).2 ⟨by omega, ?_⟩⟩
+      · rw [hv]; unfold SubnetDecl.isV4; rw [h0.2]; simp
+      · rw [h0.1, h0.2]; show a < 0 + 2 ^ 128; rw [two_pow_128]; omega
+    · rfl
+    · rfl
+    · rfl
 
 end DnsVerif.Lpm
